@@ -577,6 +577,10 @@ var c13Seeds = []string{
 	"steps:\n  - command: x\n    x: 2001-12-14t21:59:43.10-05:00", "steps:\n  - command: x\n    x: !!binary aGVsbG8=", "steps:\n  - !!str wait", "--- \nsteps: []\n--- \nsteps: [wait]",
 	"steps:\n  - trigger: t\n    n:\n      q: [\"\\na\"]", "steps:\n  - command: x\n    \"<<\": y", "steps:\n  - null: x\n    command: y", "steps:\n  - ~: x", "\xff\xfe", "\x00", "{\"steps\": [{\"command\": \"x\"}]",
 	"steps:\n\t- wait", "%YAML 1.1\n---\nsteps: [wait]", "steps: [wait]\n...\njunk", "&a steps: [*a]", "steps: &s [wait, *s]", "steps: [&w wait, *w, *w]",
+	// self-containing sequences (no mapping node on the cycle) as merge values and as values
+	"steps:\n  - {command: x, <<: &loop [*loop]}\n  - wait", "steps:\n  - command: x\n    <<: &p [&q [*p, *q]]", "<<: &l [[*l]]\nsteps: [wait]",
+	"steps:\n  - trigger: t\n    cfg: {<<: &s [*s, *s], a: 1}", "steps:\n  - &m {command: x, <<: [*m]}", "steps:\n  - &m {command: x, y: {<<: [[*m]]}}",
+	"steps:\n  - command: x\n    y: &v [1, [*v]]", "env: {<<: &e [*e]}\nsteps: []", "base: &b {<<: &z [*z], command: c}\nsteps: [*b, {<<: *b}]",
 	strings.Repeat("[", 200) + strings.Repeat("]", 200), strings.Repeat("{a: ", 200) + "x" + strings.Repeat("}", 200),
 	"steps:\n" + strings.Repeat("  - wait\n", 500),
 }
